@@ -13,6 +13,7 @@ import Hdl21Model.Drv.C15
 import Hdl21Model.Drv.PortRefs
 import Hdl21Model.Drv.GenRun
 import Hdl21Model.Drv.Runner
+import Hdl21Model.Drv.Names
 open Lean
 
 /-- Line protocol: one JSON object per input line `{"prop": "C03", "op": ..., ...}`,
@@ -36,6 +37,7 @@ def dispatch (j : Json) : Except String Json := do
   | "F2" => Hdl21.Drv.PortRefs.handle op j
   | "GEN" => Hdl21.Drv.GenRun.handle op j
   | "RUN" => Hdl21.Drv.Runner.handle op j
+  | "NAMES" => Hdl21.Drv.Names.handle op j
   | "SEM" => Hdl21.Drv.Sem.handle op j
   | _ => .error s!"unknown prop {prop}"
 
